@@ -5,10 +5,15 @@
 //	root > q1 > ... > q(depth) > { c1 (leaf, pending 1-cpu task t1),
 //	                              c2 (capability cpu capC2) > { g (pending task t2 of req cpus), g2 (held cpus running) } }
 //
-// in = [depth, capC2, held, req, viaEnqueue]   viaEnqueue=1: the disturbing vote is JobEnqueueable(job of c1)
+// in = [depth, capC2, held, req, viaEnqueue (, cousin)]   viaEnqueue=1: the disturbing vote is JobEnqueueable(job of c1)
+//
+//	cousin=1: c1 is not a leaf but has a child h holding the pending job (two cousins g and h at the
+//	same depth: the shape in which updateAncestors' own append overwrote a parent, audit W3)
+//
 // observed = [Allocatable(g,t2) before, the disturbing vote, Allocatable(g,t2) after,
 //
-//	stored ancestors of every queue unchanged (1/0)]
+//	stored ancestors of every queue unchanged (1/0),
+//	stored ancestors of every queue = its parent chain in the Queue objects (1/0)]
 package main
 
 import (
@@ -36,6 +41,7 @@ import (
 
 func runAliasCase(in []int64) []int64 {
 	depth, capC2, held, req, viaEnq := in[0], in[1], in[2], in[3], in[4] != 0
+	cousin := len(in) >= 6 && in[5] != 0
 	snap := &api.ClusterInfo{
 		Jobs: map[api.JobID]*api.JobInfo{}, Nodes: map[string]*api.NodeInfo{},
 		Queues: map[api.QueueID]*api.QueueInfo{}, NamespaceInfo: map[api.NamespaceName]*api.NamespaceInfo{},
@@ -52,6 +58,11 @@ func runAliasCase(in []int64) []int64 {
 		last = n
 	}
 	par["c1"], par["c2"], par["g"], par["g2"] = last, last, "c2", "c2"
+	leaf1 := "c1"
+	if cousin {
+		par["h"] = "c1"
+		leaf1 = "h"
+	}
 	for n, p := range par {
 		c := int64(0)
 		if n == "c2" {
@@ -74,7 +85,7 @@ func runAliasCase(in []int64) []int64 {
 		ji.AddTaskInfo(api.NewTaskInfo(t.Pod()))
 		snap.Jobs[ji.UID] = ji
 	}
-	mkJob(1, "c1", scheduling.PodGroupPending, sched.TaskSpec{ID: 1, Job: 1, Role: 1, CPU: 1000, Mem: 1 << 20, Status: sched.SPending}, true)
+	mkJob(1, leaf1, scheduling.PodGroupPending, sched.TaskSpec{ID: 1, Job: 1, Role: 1, CPU: 1000, Mem: 1 << 20, Status: sched.SPending}, true)
 	mkJob(2, "g", scheduling.PodGroupInqueue, sched.TaskSpec{ID: 2, Job: 2, Role: 1, CPU: req * 1000, Mem: 1 << 20, Status: sched.SPending}, false)
 	if held > 0 {
 		mkJob(3, "g2", scheduling.PodGroupRunning, sched.TaskSpec{ID: 3, Job: 3, Role: 1, CPU: held * 1000, Mem: 1 << 20, Status: sched.SRunning, Node: 1}, false)
@@ -108,15 +119,35 @@ func runAliasCase(in []int64) []int64 {
 	if viaEnq {
 		out = append(out, vh.B(ssn.JobEnqueueable(ssn.Jobs[sched.JobID(1)])))
 	} else {
-		out = append(out, vh.B(ssn.Allocatable(ssn.Queues["c1"], t1)))
+		out = append(out, vh.B(ssn.Allocatable(ssn.Queues[api.QueueID(leaf1)], t1)))
 	}
 	out = append(out, vh.B(ssn.Allocatable(ssn.Queues["g"], t2)))
-	out = append(out, vh.B(reflect.DeepEqual(before, capacity.VerifHierarchy(plug))))
+	after := capacity.VerifHierarchy(plug)
+	out = append(out, vh.B(reflect.DeepEqual(before, after)))
+	// the stored ancestor list of every queue against the parent chain of the Queue objects
+	chainOK := true
+	for name := range par {
+		want := []api.QueueID{}
+		for x := par[name]; x != ""; x = par[x] {
+			want = append([]api.QueueID{api.QueueID(x)}, want...)
+		}
+		for _, h := range []map[api.QueueID]capacity.VerifHier{before, after} {
+			got := h[api.QueueID(name)].Ancestors
+			if len(got) != len(want) {
+				chainOK = false
+				continue
+			}
+			for i := range want {
+				chainOK = chainOK && got[i] == want[i]
+			}
+		}
+	}
+	out = append(out, vh.B(chainOK))
 	return out
 }
 
 func genAliasCase(r *vh.Rng) []int64 {
 	capC2 := int64(r.Range(1, 6))
 	held := int64(r.Range(0, int(capC2)))
-	return []int64{int64(r.Range(0, 9)), capC2, held, int64(r.Range(1, 3)), vh.B(r.Chance(1, 2))}
+	return []int64{int64(r.Range(0, 9)), capC2, held, int64(r.Range(1, 3)), vh.B(r.Chance(1, 2)), vh.B(r.Chance(1, 2))}
 }
